@@ -123,6 +123,20 @@ func runC10(c *fw.Case) {
 		c.Count("root_build_failed", 1)
 		return
 	}
+	if rng.Intn(5) == 0 {
+		// "on every frame": also frames produced by Aggregate
+		id := model.NewCol(model.IDCol, model.KInt, 0)
+		_ = id
+		withID := &model.Root{Shadow: root.Shadow, QF: root.QF.WithRowNums(model.IDCol), Path: root.Path, Ops: root.Ops}
+		if sh2, e := model.ObserveGuard(withID.QF); e == nil {
+			model.MetaOf(root.Shadow).Apply(sh2)
+			withID.Shadow = sh2
+			if ar := aggregateDerive(rng, withID); ar != nil {
+				root = ar
+				c.Count("frames_produced_by_aggregate", 1)
+			}
+		}
+	}
 	qf := root.QF
 	names := root.Shadow.Names()
 	cb := &c10cb{}
@@ -327,8 +341,18 @@ func runC10(c *fw.Case) {
 	}
 
 	// ------------------------------------------------------------ (b) constructed misuse
-	one := func(k model.Kind) string { return k.String()[:1] + "1" }
+	one := func(k model.Kind) string {
+		for _, col := range root.Shadow.Cols {
+			if col.Kind == k && col.Name != model.IDCol {
+				return col.Name
+			}
+		}
+		return ""
+	}
 	iC, fC, bC, sC, eC := one(model.KInt), one(model.KFloat), one(model.KBool), one(model.KString), one(model.KEnum)
+	if iC == "" || fC == "" || bC == "" || sC == "" {
+		return
+	}
 	misuse := []struct {
 		desc, kind string
 		f          func() qframe.QFrame
@@ -405,6 +429,9 @@ func runC10(c *fw.Case) {
 	}
 	before := cb.n
 	for _, m := range misuse {
+		if eC == "" && strings.Contains(m.desc, "enum") {
+			continue
+		}
 		judge(m.desc, m.kind, true, m.f)
 		if c.Failed() {
 			return
